@@ -35,6 +35,17 @@ CLAIMS.update({
         note="real interleavings come from the OS scheduler (not enumerated): a defect with a window of a few instructions is found with high probability over the rounds, not with certainty; OnceLock set/get treated as linearizable; components are test doubles; exhaustive part holds within the stated bounds"),
 })
 
+CLAIMS.update({
+    "C13": dict(cat="exploration", ref="6/C13, 7",
+        technique="TLA+ record-mapping spec Encode.tla (level-B Dedup/Lift/Attr pipeline refines the level-A record definitions) checked by TLC; TLC-enumerated abstract events replayed on the real sinks with seeded concrete values and projected back",
+        text="The specification carries the record mapping (which field, which attribute, once, first value, unique keys, totality over value shapes) and TLC checks it (AttrKeysUnique, EveryPropOnce, FirstWins, WellKnownLifted, Total, Refines); for every abstract event TLC enumerates (kind x extent x header x up to 2-3 extra properties over 14 keys and 49-195 shapes incl. duplicates, ids, errors, non-text map keys) the real emit_file writer, emit_otlp logs/traces/metrics in protobuf and JSON over a loopback collector and emit_term run on seeded pool values: no panic on the emitting thread, one JSON object per file line with the predicted members, OTLP bodies decode with the prost schema types, lifted fields from the first occurrence, unique attributes with the predicted AnyValue image, protobuf and JSON twins equal. Exploration level: byte-level fidelity is decided by decoders and pool values, not enumerated by TLC.",
+        note="values come from a seeded pool, not from TLC; prost + generated types trusted as the schema, serde_json decides well-formedness; map keys limited to text/bool/i64/f64; don't-cares listed in DESIGN (attribute order, monotonic/temporality, NaN/Inf JSON rendering, terminal output beyond no-panic + message text)"),
+    "C19": dict(cat="exploration", ref="6/C19, 7",
+        technique="TLA+ meaning table and representation-path state machine Capture.tla checked by TLC; every TLC-enumerated (mode, shape, path) replayed on values captured at 333 real macro call sites",
+        text="The specification carries what each capture mode promises (typed pull, Display, Debug, structure tree, error chain, presence) and which components survive each step of a value's life (ByRef, Erase, EraseEvent, ToOwned, ToShared, IntoCtxt, MoveThread, ReadBack); TLC checks Preserved, PresenceNeverLost, TypedSurvivesBuffering, StructureSurvivesBuffering, DirectReadKeepsAll over all paths up to length 4-5 and prints the predicted observation vectors; the harness captures at real macro call sites (one per mode x Rust type), applies each path to the resulting emit::Value and compares cast/to_string/Debug/serde_json/sval_json (cross-framework) with the original's own output; optional None must yield no key anywhere.",
+        note="value-bag, sval and the serde bridges are exercised, not modelled; values from a seeded pool; don't-cares: Display/Debug text after buffering, inspect-mode formatting of primitives; reads through each sink are covered by C13"),
+})
+
 NOT_YET = {}
 
 
